@@ -243,6 +243,13 @@ func (pg *peerGater) decayStats() {
 	for p, st := range pg.peerStats {
 		if st.connected == 0 && st.expire.Before(now) {
 			delete(pg.peerStats, p)
+			continue
+		}
+		// The statistics are shared by all peers of an IP address, so connected
+		// stays above zero while any of them is around; the entry of a peer
+		// that is gone must not wait for the others to leave as well.
+		if pg.host != nil && pg.host.Network().Connectedness(p) != network.Connected {
+			delete(pg.peerStats, p)
 		}
 	}
 
